@@ -121,7 +121,7 @@ impl<T: Tag> Header<T> {
 '''),
     Fn(HDR, 'parse', impl='impl<T> Header<T> where T: Tag,',
        subs=[READ1, ret(),
-             ('input.by_ref().take(size_rest).read_to_end(&mut buf)?;', 'input.take_read_to_end(size_rest, &mut buf)?;', None, 'R16-Take::read_to_end'),
+             (re.compile(r'input\.by_ref\(\)\.take\((\w+)\)\.read_to_end\(&mut buf\)\?;'), r'input.take_read_to_end(\1, &mut buf)?;', None, 'R16-Take::read_to_end'),
              ] + IOERR_RULES + ALLOC_RULES + [
              ('&buf[..]', 'buf.as_slice()', None, 'R17-full-range-slice'),
              ('Vec::new()', 'Vec::<u8>::new()', None, 'R9-type-annotation')],
@@ -131,7 +131,7 @@ impl<T: Tag> Header<T> {
        prologue='let ghost r0 = old(input).remaining();',
        before=[('Self::parse_header(index_header', '''proof {
             lemma_intro_bytes(r0.subrange(0, 16), index_header);
-            assert(buf@ =~= r0.subrange(16, 16 + size_rest as int));
+            assert(buf@ =~= r0.subrange(16, 16 + buf@.len() as int));
         }
         let ghost ih = index_header;
         let res = ''')],
